@@ -199,7 +199,11 @@ func (c *Cluster) CrashNode(name string) {
 	}
 	n.fs.SetIgnoreSyncs(true)
 	for _, k := range n.kvf.KVs {
-		_ = kv.VerifPebble(k.KV).Close()
+		func() {
+			// databases the node had already closed itself panic on a second Close
+			defer func() { _ = recover() }()
+			_ = kv.VerifPebble(k.KV).Close()
+		}()
 	}
 	n.kvf.closed = true
 	n.fs.ResetToSyncedState()
